@@ -296,6 +296,31 @@ class World:
                 if k == 'move':
                     os.unlink(s)
                 done = True
+        elif k == 'resize_keepm':              # the size changes, the time-stamp is put back
+            if self.isfile(o[1], o[2]):
+                q = self.p(o[1], o[2])
+                st = os.stat(q)
+                if st.st_size != o[3]:
+                    old = open(q, 'rb').read()
+                    data = old[:o[3]] if o[3] < len(old) else old + rng.randbytes(o[3] - len(old))
+                    done = self.write(o[1], o[2], data, st.st_mtime_ns)
+        elif k == 'restore':                   # "restored from a backup": same path, size, time-stamp and bytes, new inode
+            if self.isfile(o[1], o[2]):
+                q = self.p(o[1], o[2])
+                st = os.stat(q)
+                if st.st_nlink == 1:
+                    data = open(q, 'rb').read()
+                    os.rename(q, q + '.bak')       # keeps the old inode busy so that the copy gets another one
+                    with open(q, 'wb') as fh:
+                        fh.write(data)
+                    os.utime(q, ns=(st.st_mtime_ns, st.st_mtime_ns))
+                    os.unlink(q + '.bak')
+                    a.note_version(o[1], o[2]); done = True
+        elif k == 'samestamp':                 # ANOTHER file (other name, other bytes) with the size and time-stamp of an existing one
+            t = self.p(o[3], o[4])
+            if self.isfile(o[1], o[2]) and not os.path.lexists(t) and self.parent_ok(o[3], o[4]):
+                st = os.stat(self.p(o[1], o[2]))
+                done = self.write(o[3], o[4], rng.randbytes(st.st_size), st.st_mtime_ns)
         elif k == 'touch':                     # time-stamp only
             if self.isfile(o[1], o[2]):
                 m = self.stamp()
@@ -342,10 +367,9 @@ class World:
                     if os.path.islink(q) or not os.path.isfile(q):
                         continue
                     st = os.lstat(q)
-                    if st.st_nlink > 1:
-                        sub = os.path.relpath(q, base)
-                        if not any(len(b) == st.st_size and m == st.st_mtime_ns for b, m in self.arr.store.get((d, sub), [])):
-                            self.arr.note_version(d, sub)
+                    sub = os.path.relpath(q, base)
+                    if not any(len(b) == st.st_size and m == st.st_mtime_ns for b, m in self.arr.store.get((d, sub), [])):
+                        self.arr.note_version(d, sub)
 
     # ------------------------------------------------------------------------------------------ ground truth
     def truth(self):
